@@ -181,11 +181,31 @@ def _inline_closure_calls(crate, body, pick, max_depth, rnd):
     T = None
     targets = {}
     devirt = {}
+    ptr_calls = {}
     for bi, blk in enumerate(body.blocks):
         t = blk['term']
         if t['k'] != 'call' or blk['cleanup']:
             continue
         cf = t.get('callee', '')
+        if not cf and isinstance(t.get('func'), dict) and t['func'].get('k') in ('copy', 'move'):
+            # a call through a function pointer: devirtualise when the pointer is an element of a constant table
+            if T is None:
+                T = Terms(body)
+            fp = norm(T.operand_term(t['func'], bi, len(blk['stmts'])))
+            while fp[0] in ('ref', 'deref', 'load'):
+                fp = fp[1]
+            if fp[0] == 'index' and fp[1][0] == 'const' and fp[1][3] and fp[2][0] == 'const':
+                from .desugar import const_array_ops
+                ops = const_array_ops(crate, fp[1][3])
+                try:
+                    el = ops[int(fp[2][2])] if ops is not None else None
+                except (ValueError, IndexError, TypeError):
+                    el = None
+                while el is not None and el[0] == 'cast':
+                    el = el[4]
+                if el is not None and el[0] == 'fn':
+                    ptr_calls[bi] = el[1]
+            continue
         if not (cf.startswith('core::ops::function::Fn') and t.get('callee_name') in ('call', 'call_mut', 'call_once')):
             continue
         if t.get('resolved_kind') == 'item' and t.get('resolved') in crate.bodies and crate.bodies[t['resolved']].def_kind == 'Closure':
@@ -203,6 +223,24 @@ def _inline_closure_calls(crate, body, pick, max_depth, rnd):
             # the indirect call is a direct call of that function
             tup = norm(T.operand_term(t['args'][1], bi, len(blk['stmts'])))
             devirt[bi] = (f[1], tup)
+    if ptr_calls:
+        j2 = copy.deepcopy(body.j)
+        for bi, path in ptr_calls.items():
+            tt = j2['blocks'][bi]['term']
+            local = [b for b in crate.all_bodies if _sg(b.path) == path and b.def_kind in ('Fn', 'AssocFn')]
+            tt['callee'] = path
+            tt['callee_full'] = path
+            tt['callee_name'] = path.rsplit('::', 1)[-1]
+            tt['callee_args'] = []
+            tt['devirtualised'] = True
+            tt['func'] = {'k': 'const', 'ty': '?', 'fn': path, 'fn_full': path, 'fn_args': [], 'zst': True, 'repr': path}
+            tt['resolved'] = local[0].path if len(local) == 1 else path
+            tt['resolved_full'] = tt['resolved']
+            tt['resolved_local'] = len(local) == 1
+            tt['resolved_kind'] = 'item'
+        nb0 = Body(j2, crate)
+        nb0.inlined = getattr(body, 'inlined', None)
+        return inline(crate, nb0, pick, max_depth, _closure_round=rnd + 1)
     if devirt:
         j2 = copy.deepcopy(body.j)
         changed = False
